@@ -6,7 +6,7 @@ open M_c04
      P ...same...  -> the same line computed by the model of the PINNED code (used to name the defect a tree still has)
    and abstract runs of the verifying side's message machine that props/C04.py derives from live scenarios:
      M <ver> <role c|s> <kex rsa|dhe> <cbmode> <cbarg> <fix_ske 0|1> <offered csv> <msg>...
-        msg: nocert | cert:<leafkey>:<rc>:<ca>:<maxdepth>:<status>.<flags>.<self>,... | ske:<alg>:<sig> | shd | cke | cv:<alg>:<sig> | fin:<vd>
+        msg: nocert | cert:<leafkey>:<rc>:<ca>:<maxdepth>:<status>.<flags>.<self>,... | ske:<alg>:<sig> | skeu (no signature) | shd | cke | cv:<alg>:<sig> | fin:<vd>
         ideal signatures: sig = 10*signing key + (1 if the signed data is this handshake's own, else 0);
         fin vd: 1 = genuine; under RSA key transport 10*key+1 = computed by the holder of that key's private half
         -> ph=<done|dead:<alert>|wait:<n>> pops=<k> leaf=<key|->  *)
@@ -43,6 +43,7 @@ let parse_msg (t : string) : msg =
                             v_ca = (ca = "1"); v_maxdepth = zi (int_of_string depth) })
   | ["nocert"] -> MCertificateEmpty
   | ["ske"; alg; sg] -> MServerKeyExchange (ni "3", ni alg, ni sg)
+  | ["skeu"] -> MServerKeyExchangeUnsigned (ni "3")
   | ["shd"] -> MServerHelloDone
   | ["cke"] -> MClientKeyExchange
   | ["cv"; alg; sg] -> MCertificateVerify (ni alg, ni sg)
